@@ -389,21 +389,30 @@ class InputScope(PSBTScope):
         # PSBT_IN_TAP_BIP32_DERIVATION
         elif k[0] == 0x16:
             pub = ec.PublicKey.from_xonly(k[1:])
-            if pub not in self.taproot_bip32_derivations:
-                b = BytesIO(v)
-                num_leaf_hashes = compact.read_from(b)
-                leaf_hashes = [b.read(32) for i in range(num_leaf_hashes)]
-                if not all([len(leaf) == 32 for leaf in leaf_hashes]):
-                    raise PSBTError("Invalid length of taproot leaf hashes")
-                der = DerivationPath.read_from(b)
-                self.taproot_bip32_derivations[pub] = (leaf_hashes, der)
+            if pub in self.taproot_bip32_derivations:
+                raise PSBTError("Duplicated taproot derivation path")
+            b = BytesIO(v)
+            num_leaf_hashes = compact.read_from(b)
+            leaf_hashes = [b.read(32) for i in range(num_leaf_hashes)]
+            if not all([len(leaf) == 32 for leaf in leaf_hashes]):
+                raise PSBTError("Invalid length of taproot leaf hashes")
+            der = DerivationPath.read_from(b)
+            self.taproot_bip32_derivations[pub] = (leaf_hashes, der)
 
         # PSBT_IN_TAP_INTERNAL_KEY
         elif k[0] == 0x17:
+            if len(k) != 1:
+                raise PSBTError("Invalid taproot internal key key")
+            elif self.taproot_internal_key is not None:
+                raise PSBTError("Duplicated taproot internal key")
             self.taproot_internal_key = ec.PublicKey.from_xonly(v)
 
         # PSBT_IN_TAP_MERKLE_ROOT
         elif k[0] == 0x18:
+            if len(k) != 1:
+                raise PSBTError("Invalid taproot merkle root key")
+            elif self.taproot_merkle_root is not None:
+                raise PSBTError("Duplicated taproot merkle root")
             self.taproot_merkle_root = v
 
         else:
@@ -578,19 +587,24 @@ class OutputScope(PSBTScope):
 
         # PSBT_OUT_TAP_INTERNAL_KEY
         elif k[0] == 0x05:
+            if len(k) != 1:
+                raise PSBTError("Invalid taproot internal key key")
+            elif self.taproot_internal_key is not None:
+                raise PSBTError("Duplicated taproot internal key")
             self.taproot_internal_key = ec.PublicKey.from_xonly(v)
 
         # PSBT_OUT_TAP_BIP32_DERIVATION
         elif k[0] == 0x07:
             pub = ec.PublicKey.from_xonly(k[1:])
-            if pub not in self.taproot_bip32_derivations:
-                b = BytesIO(v)
-                num_leaf_hashes = compact.read_from(b)
-                leaf_hashes = [b.read(32) for i in range(num_leaf_hashes)]
-                if not all([len(leaf) == 32 for leaf in leaf_hashes]):
-                    raise PSBTError("Invalid length of taproot leaf hashes")
-                der = DerivationPath.read_from(b)
-                self.taproot_bip32_derivations[pub] = (leaf_hashes, der)
+            if pub in self.taproot_bip32_derivations:
+                raise PSBTError("Duplicated taproot derivation path")
+            b = BytesIO(v)
+            num_leaf_hashes = compact.read_from(b)
+            leaf_hashes = [b.read(32) for i in range(num_leaf_hashes)]
+            if not all([len(leaf) == 32 for leaf in leaf_hashes]):
+                raise PSBTError("Invalid length of taproot leaf hashes")
+            der = DerivationPath.read_from(b)
+            self.taproot_bip32_derivations[pub] = (leaf_hashes, der)
 
         else:
             if k in self.unknown:
